@@ -76,31 +76,34 @@ class World(DuoWorld):
         other = priv("some-other-key")
         layout = cfg["layout"]
         self.secret_prefix = "com.secret."
+        self.keys = {"ko": ko, "kr": kr, "other": other}
+        # reference model of the two keyrings: prefix -> name of the key ("" is the default key)
         if layout == "default":
             ring_o = KeyRing(default_key=ko)
             ring_r = KeyRing(default_key=ko)
-            self.covered = lambda uri: True
+            self.model = {"orig": {"": "ko"}, "resp": {"": "ko"}}
         elif layout == "prefix":
             ring_o, ring_r = KeyRing(), KeyRing()
             ring_o.set_key(self.secret_prefix, ko)
             ring_r.set_key(self.secret_prefix, ko)
-            self.covered = lambda uri: uri.startswith(self.secret_prefix)
+            self.model = {"orig": {self.secret_prefix: "ko"}, "resp": {self.secret_prefix: "ko"}}
         elif layout == "prefix+default":
             ring_o, ring_r = KeyRing(default_key=kr), KeyRing(default_key=kr)
             ring_o.set_key(self.secret_prefix, ko)
             ring_r.set_key(self.secret_prefix, ko)
-            self.covered = lambda uri: True
+            self.model = {"orig": {"": "kr", self.secret_prefix: "ko"}, "resp": {"": "kr", self.secret_prefix: "ko"}}
         elif layout == "split-roles":
             # the originator holds only its private key and the responder's public key, and vice versa
             ring_o, ring_r = KeyRing(), KeyRing()
             ring_o.set_key(self.secret_prefix, Key(originator_priv=ko, responder_pub=pub_of(kr)))
             ring_r.set_key(self.secret_prefix, Key(responder_priv=kr, originator_pub=pub_of(ko)))
-            self.covered = lambda uri: uri.startswith(self.secret_prefix)
+            self.model = {"orig": {self.secret_prefix: "split"}, "resp": {self.secret_prefix: "split"}}
         else:
             ring_o = KeyRing(default_key=ko)
             ring_r = KeyRing(default_key=other)
-            self.covered = lambda uri: True
-        self.wrong_key = layout == "responder-wrong-key"
+            self.model = {"orig": {"": "ko"}, "resp": {"": "other"}}
+        self.rings = {"orig": ring_o, "resp": ring_r}
+        self.rekeys_left = 0 if (flip or layout == "split-roles") else ch.choose(4, "nrekeys", (4, 2, 1, 1))
         orig = fwamp.ApplicationSession(ComponentConfig(realm="realm1"))
         resp = fwamp.ApplicationSession(ComponentConfig(realm="realm1"))
         orig.set_payload_codec(ring_o)
@@ -153,6 +156,40 @@ class World(DuoWorld):
 
     by_tok = None
 
+    # --- reference keyring -------------------------------------------------------------------------------------------------
+    @staticmethod
+    def resolve_in(ring_model, uri):
+        """name of the key the ring holds for the URI: longest matching prefix, else the default key, else None"""
+        best = None
+        for prefix, name in ring_model.items():
+            if prefix and uri.startswith(prefix) and (best is None or len(prefix) > len(best)):
+                best = prefix
+        if best is not None:
+            return ring_model[best]
+        return ring_model.get("")
+
+    def resolve(self, side_name, uri):
+        return self.resolve_in(self.model[side_name], uri)
+
+    def covered(self, uri):
+        return self.resolve("resp", uri) is not None
+
+    def rekey(self):
+        """the application replaces, adds or removes a key on a live keyring"""
+        ch = self.run.ch
+        self.rekeys_left -= 1
+        who = ch.pick((("orig", "resp"), ("orig",), ("resp",)), "rekey-who", (3, 1, 1))
+        prefix = ch.pick(("com.secret.", "", "com.public."), "rekey-prefix")
+        name = ch.pick(("other", "kr", "ko", None), "rekey-key")
+        for side_name in who:
+            self.rings[side_name].set_key(prefix, self.keys[name] if name else None)
+            if name is None:
+                self.model[side_name].pop(prefix, None)
+            else:
+                self.model[side_name][prefix] = name
+        self.run.fault("rekey")
+        self.run.log("app", "set_key", who, prefix, name)
+
     # --- actions ------------------------------------------------------------------------------------------------------------
     def actions(self):
         if self.by_tok is None:
@@ -160,6 +197,8 @@ class World(DuoWorld):
         acts = self.base_actions()
         if self.ops_left > 0:
             acts.append((3.0, "originate", self.originate))
+        if self.rekeys_left > 0 and self.ops:
+            acts.append((1.5, "rekey", self.rekey))
         if self.unread(self.o) or self.unread(self.r):
             acts.append((4.0, "router-collect", self.collect))
         if self.queue:
@@ -190,6 +229,7 @@ class World(DuoWorld):
         op.outcome = None
         self.ops.append(op)
         self.by_tok[op.tok] = op
+        op.enc = {"request": self.resolve("orig", op.uri)}
         self.run.log("app", op.kind, op.uri, op.tok, sorted(op.tamper.items()), op.reply)
         if op.kind == "publish":
             self.call(lambda: self.o.session.publish(op.uri, *op.args, options=types.PublishOptions(acknowledge=False), **op.kwargs))
@@ -199,11 +239,11 @@ class World(DuoWorld):
             op.w = self.fw.watch(f)
         self.settle()
 
-    def wire_check(self, side, msg, op):
-        """not-in-clear: with a key for the URI the serialized message carries no plaintext token."""
+    def wire_check(self, side, msg, op, enc_name):
+        """not-in-clear: with a key for the URI (at the time of sending) the serialized message carries no plaintext token."""
         ser = side.t._rser
         data, _ = ser.serialize(msg)
-        covered = self.covered(op.uri)
+        covered = enc_name is not None
         toks = [op.tok.encode(), ("KW-" + op.tok).encode(), ("RES-" + op.tok).encode(), ("ERR-" + op.tok).encode(), ("W-" + op.tok).encode()]
         leaked = [t for t in toks if t in data]
         if covered:
@@ -229,43 +269,49 @@ class World(DuoWorld):
             op = self.by_tok_from_order("publish", msg)
             if op is None:
                 return
-            self.wire_check(side, msg, op)
+            self.wire_check(side, msg, op, op.enc["request"])
             self.next_id += 1
             ev = M.Event(self.sub_ids[op.uri], self.next_id, args=msg.args, kwargs=msg.kwargs, payload=msg.payload, enc_algo=msg.enc_algo,
                          enc_key=msg.enc_key, enc_serializer=msg.enc_serializer)
             self.remember_cipher(msg.payload, op.uri)
-            self.queue.append((self.r, ev, op, "event"))
+            self.queue.append((self.r, ev, op, "event", op.enc["request"]))
         elif isinstance(msg, M.Call):
             op = self.by_tok_from_order("call", msg)
             if op is None:
                 return
             op.call_id = msg.request
-            self.wire_check(side, msg, op)
+            self.wire_check(side, msg, op, op.enc["request"])
             self.next_id += 1
             op.inv_id = self.next_id
             inv = M.Invocation(op.inv_id, self.reg_ids[op.uri], args=msg.args, kwargs=msg.kwargs, payload=msg.payload, enc_algo=msg.enc_algo,
                                enc_key=msg.enc_key, enc_serializer=msg.enc_serializer)
             self.remember_cipher(msg.payload, op.uri)
-            self.queue.append((self.r, inv, op, "invocation"))
+            self.queue.append((self.r, inv, op, "invocation", op.enc["request"]))
         elif isinstance(msg, M.Yield):
             op = self.op_for_request("inv_id", msg.request)
             if op is None:
                 return
+            # a result travels the way the invocation came in: encrypted iff the invocation was (and then under
+            # the key the responder holds for the procedure at that moment)
+            enc_name = self.resolve_in(op.resp_model, op.uri) if op.inv_encrypted else None
             if not op.tamper.get("invocation"):
-                self.wire_check(side, msg, op)
+                self.wire_check(side, msg, op, enc_name)
             res = M.Result(op.call_id, args=msg.args, kwargs=msg.kwargs, payload=msg.payload, enc_algo=msg.enc_algo, enc_key=msg.enc_key,
                            enc_serializer=msg.enc_serializer)
             self.remember_cipher(msg.payload, op.uri)
-            self.queue.append((self.o, res, op, "result"))
+            self.queue.append((self.o, res, op, "result", enc_name))
         elif isinstance(msg, M.Error):
             op = self.op_for_request("inv_id", msg.request)
             if op is None:
                 return
             op.callee_error = msg.error
+            enc_name = self.resolve_in(op.resp_model, msg.error)
+            if op.reply == "error" and not getattr(op, "expect_enc_error", False) and not op.tamper.get("invocation"):
+                self.wire_check(side, msg, op, enc_name)
             err = M.Error(48, op.call_id, msg.error, args=msg.args, kwargs=msg.kwargs, payload=msg.payload, enc_algo=msg.enc_algo,
                           enc_key=msg.enc_key, enc_serializer=msg.enc_serializer)
             self.remember_cipher(msg.payload, msg.error)
-            self.queue.append((self.o, err, op, "error"))
+            self.queue.append((self.o, err, op, "error", enc_name))
 
     def by_tok_from_order(self, kind, msg):
         # requests arrive in the order they were issued
@@ -283,7 +329,12 @@ class World(DuoWorld):
         ch = self.run.ch
         M = self.M
         i = ch.choose(len(self.queue), "which")
-        side, msg, op, direction = self.queue.pop(i)
+        side, msg, op, direction, enc_name = self.queue.pop(i)
+        envelope_uri = msg.error if direction == "error" else op.uri
+        dec_name = self.resolve(side.name, envelope_uri)
+        bad_key = bool(getattr(msg, "enc_algo", None)) and enc_name != dec_name
+        if bad_key:
+            self.run.probe("delivered-under-other-key:%s" % direction)
         how = op.tamper.get(direction)
         tampered = None
         if how is not None and getattr(msg, "enc_algo", None):
@@ -320,15 +371,18 @@ class World(DuoWorld):
         n_h, n_e = len(self.handler_calls), len(self.endpoint_calls)
         err = self.deliver_to(side, msg)
         self.settle()
+        if direction == "invocation":
+            op.inv_encrypted = bool(getattr(msg, "enc_algo", None))
+            # the reply is produced now, under the responder's keys as they are now
+            op.resp_model = dict(self.model["resp"])
         if err is not None:
             self.run.violate("C20.explicit-error", "delivery-raised:%s:%s" % (direction, type(err).__name__), repr(err))
             return
-        self.judge(op, direction, tampered, n_h, n_e)
+        self.judge(op, direction, tampered, n_h, n_e, bad_key)
 
-    def judge(self, op, direction, tampered, n_h, n_e):
+    def judge(self, op, direction, tampered, n_h, n_e, bad_key):
         run = self.run
         exp_args, exp_kwargs = tuple(jsonish(op.args)), jsonish(op.kwargs)
-        bad_key = self.wrong_key and self.covered(op.uri)
         new_h = self.handler_calls[n_h:]
         new_e = self.endpoint_calls[n_e:]
         if direction == "event":
